@@ -1033,8 +1033,8 @@ def r_shape_component_tests(c):
     with isinstance(.., Array), never with a narrower class"""
     from pta.rules.common import check_shape_component_tests
     n = check_shape_component_tests(c, "R13-CHILDREN", ["pytato.analysis", "pytato.transform", "pytato.transform.materialize", "pytato.transform.metadata", "pytato.transform.calls", "pytato.codegen", "pytato.distributed.partition"])
-    if n < 6:
-        raise AnalysisError(f"only {n} type tests on shape components found (floor 6)")
+    if n < 1:
+        raise AnalysisError("no type test on shape components found")
 
 
 SPEC = Spec(
